@@ -392,6 +392,9 @@ QUERIES = [
     ("nested_streams", "{ hero { friends @stream(initialCount: 1, label: \"S\") { id afriends @stream(label: \"T\") { id } } } }", "ok"),
     ("two_streams_defer", "{ nums @stream(label: \"N\") agen @stream(label: \"G\") { id } ... @defer(label: \"A\") { slow hero { name } } }", "ok"),
     ("frag_spread", "query { hero { ...F @defer(label: \"A\") } } fragment F on Hero { name ...G @defer(label: \"B\") } fragment G on Hero { nn best { id } }", "ok"),
+    ("pruned_complete", "{ ... @defer(label: \"A\") { hero { pet { id name } } } ... @defer(label: \"B\") { hero { id ... @defer(label: \"D\") { pet { ... @defer(label: \"E\") { nn } } } } } }", "ok"),
+    ("pruned_complete_lists", "{ ... @defer(label: \"A\") { hero { friends @stream(initialCount: 1, label: \"S\") { pet { id } } } } ... @defer(label: \"B\") { hero { friends @stream(initialCount: 1, label: \"S\") { ... @defer(label: \"D\") { pet { ... @defer(label: \"E\") { name } } } friends { name } } } } }", "ok"),
+    ("pruned_complete_3", "{ hero { id } ... @defer(label: \"A\") { hero { pet { best { id } } } } ... @defer(label: \"B\") { hero { name ... @defer(label: \"D\") { pet { ... @defer(label: \"E\") { best { ... @defer(label: \"F\") { name } } } } } } } ... @defer(label: \"C\") { hero { pet { best { nn } } } } }", "ok"),
     ("same_path_two", "{ hero { ... @defer(label: \"A\") { name } ... @defer(label: \"B\") { name id pet { ... @defer(label: \"C\") { name } } } } }", "ok"),
 ]
 
@@ -722,7 +725,7 @@ class ScriptQueue:
         return None
 
 
-def gen_graph(rng, max_groups=3, max_tasks=4, max_streams=2, wf=True):
+def gen_graph(rng, max_groups=4, max_tasks=4, max_streams=2, wf=True):
     """Random small work graph.  Returns dict(parents, tasks{tid:(groups, work)}, streams{sid:[work]}, work0).
     work = (groups, tasks, streams) lists of ids."""
     st = {"g": 0, "t": 0, "s": 0}
@@ -1194,6 +1197,12 @@ def part_wq(ck, m, tier):
             ck.violation("wq-initial:" + key[:150], "initial groups/streams differ from the model",
                          dict(rep, impl=[r["initial_groups"], r["initial_streams"]], model=[ig, istr]))
             continue
+        cop = creation_order_problem(g, r["flat"])
+        if cop:
+            ck.violation("wq-child-before-shared-parent-value",
+                         f"real WorkQueue: {cop} (a pruned group that still held a completed shared task promoted its children)",
+                         dict(rep, impl_events=r["flat"]))
+            continue
         if mflat != r["flat"]:
             d = next((k for k, (a, b) in enumerate(zip(mflat, r["flat"])) if a != b), min(len(mflat), len(r["flat"])))
             ie = r["flat"][d] if d < len(r["flat"]) else None
@@ -1261,6 +1270,58 @@ def part_wq(ck, m, tier):
                          f"extracted valid/valid_prefix = {out[1:3]} but the Python validator says {okc}/{okp}",
                          dict(rep, payloads=rp))
     ck.count("wq_publisher_cases", len(pub_cases))
+
+
+def creation_order_problem(g, flat):
+    """Abstract data dependency on flattened work-queue events (same rule as Explore.creation_ok):
+    work declared by a task result / stream item is delivered / announced after that result."""
+    t_origin, g_origin, s_origin = {}, {}, {}
+    for t, (_tg, w) in g["tasks"].items():
+        for x in w[0]:
+            g_origin.setdefault(x, ("task", t))
+        for x in w[1]:
+            t_origin.setdefault(x, ("task", t))
+        for x in w[2]:
+            s_origin.setdefault(x, ("task", t))
+    for sid, items in g["streams"].items():
+        for k, w in enumerate(items):
+            for x in w[0]:
+                g_origin.setdefault(x, ("item", sid, k))
+            for x in w[1]:
+                t_origin.setdefault(x, ("item", sid, k))
+            for x in w[2]:
+                s_origin.setdefault(x, ("item", sid, k))
+    done_t, done_i = set(), {}
+
+    def ok(o):
+        if o is None:
+            return True
+        if o[0] == "task":
+            return o[1] in done_t
+        return o[2] < done_i.get(o[1], 0)
+    for e in flat:
+        if e[0] == 0:
+            for t in e[3:3 + e[2]]:
+                if not ok(t_origin.get(t)):
+                    return f"value of task {t} delivered before the value of {t_origin[t]} whose result declared it"
+                done_t.add(t)
+        elif e[0] in (1, 3):
+            if e[0] == 3:
+                done_i[e[1]] = e[2] + e[3]
+                i = 4
+            else:
+                i = 2
+            n = e[i]
+            ngs = e[i + 1:i + 1 + n]
+            k = e[i + 1 + n]
+            nss = e[i + 2 + n:i + 2 + n + k]
+            for x in ngs:
+                if not ok(g_origin.get(x)):
+                    return f"group {x} announced before the value of {g_origin[x]} whose result declared it"
+            for x in nss:
+                if not ok(s_origin.get(x)):
+                    return f"stream {x} announced before the value of {s_origin[x]} whose result declared it"
+    return None
 
 
 def dec_wq_event(out, i):
